@@ -36,6 +36,12 @@ impl WalPathManager {
     }
 
     pub(crate) fn ensure_root(&self) -> std::io::Result<()> {
+        #[cfg(walrus_verif)]
+        if !self.root.exists() {
+            crate::wal::verif::io(crate::wal::verif::Io::Mkdir {
+                path: &self.root.to_string_lossy(),
+            });
+        }
         fs::create_dir_all(&self.root)
     }
 
@@ -47,15 +53,36 @@ impl WalPathManager {
         self.ensure_root()?;
         let file_name = now_millis_str();
         let path = self.root.join(&file_name);
+        #[cfg(walrus_verif)]
+        if let Some(e) = crate::wal::verif::fault("create_file") {
+            return Err(e);
+        }
+        #[cfg(walrus_verif)]
+        crate::wal::verif::io(crate::wal::verif::Io::Create {
+            path: &path.to_string_lossy(),
+        });
         let f = std::fs::File::create(&path)?;
+        #[cfg(walrus_verif)]
+        crate::wal::verif::io(crate::wal::verif::Io::SetLen {
+            path: &path.to_string_lossy(),
+            len: MAX_FILE_SIZE,
+        });
         f.set_len(MAX_FILE_SIZE)?;
 
         // Sync file metadata (size, etc.) to disk
+        #[cfg(walrus_verif)]
+        crate::wal::verif::io(crate::wal::verif::Io::FsyncFile {
+            path: &path.to_string_lossy(),
+        });
         f.sync_all()?;
 
         // CRITICAL for Linux: Sync parent directory to ensure directory entry is durable
         // Without this, the file might exist but not be visible in directory listing after crash
         let dir = std::fs::File::open(&self.root)?;
+        #[cfg(walrus_verif)]
+        crate::wal::verif::io(crate::wal::verif::Io::DirSync {
+            path: &self.root.to_string_lossy(),
+        });
         dir.sync_all()?;
 
         Ok(path.to_string_lossy().into_owned())
